@@ -28,7 +28,7 @@ vars == <<st, cy, n>>
 Scn == [aprofiles |-> AProfiles, sprofiles |-> SProfiles, sparent |-> SParent, allocs |-> Allocs]
 
 AllServers == DOMAIN ServerInit
-Idle0 == [phase |-> "idle", fresh |-> FALSE, hold |-> FALSE]
+Idle0 == [phase |-> "idle", fresh |-> FALSE, hold |-> FALSE, probe |-> ""]
 
 InitSrv(s) == LET sp == SProfiles[ServerInit[s]] IN
   [cap |-> sp.cap, free |-> sp.cap, state |-> "up", since |-> 0, label |-> sp.label,
@@ -41,7 +41,11 @@ Init ==
                           [level |-> BLevel[b], parent |-> BParent[b], ctr |-> EmptyFn]],
            apps |-> EmptyFn,
            groups |-> [g \in DOMAIN GroupsInit |->
-                         [count |-> GroupsInit[g], available |-> 0..(GroupsInit[g] - 1)]]]
+                         [count |-> GroupsInit[g], available |-> 0..(GroupsInit[g] - 1)]],
+           allocs |-> [x \in DOMAIN Allocs |->
+                         [rank |-> Allocs[x].rank, adj |-> Allocs[x].adj,
+                          reserved |-> Allocs[x].reserved, maxutil |-> Allocs[x].maxutil,
+                          label |-> Allocs[x].label]]]
   /\ cy = Idle0
   /\ n = [ev |-> 0, cyc |-> 0]
 
@@ -67,7 +71,7 @@ RankSeq(s, al, seq, k, acc) ==
            boosted == ~zero /\ \A d \in DOMAIN acc : acc[d] < al.reserved[d]
            rank == IF ~within THEN UnplacedRank
                    ELSE IF boosted THEN al.rank - al.adj ELSE al.rank
-       IN <<<<a, rank>>>> \o RankSeq(s, al, seq, k + 1, after)
+       IN <<<<a, rank, s.apps[a].server # NoServer>>>> \o RankSeq(s, al, seq, k + 1, after)
 
 PrivQueue(s, x) ==
   LET members == {a \in AppNames(s) : s.apps[a].alloc = x}
@@ -76,20 +80,25 @@ PrivQueue(s, x) ==
 
 RankKey(r) == IF r = UnplacedRank THEN 1000000 ELSE r
 
-RECURSIVE Merges(_)
-Merges(seqs) ==
+(* equal-rank heads interleave freely (float utilisation), except that a       *)
+(* priority-0 instance carries utilisation +infinity and so yields to every    *)
+(* other head of its rank                                                      *)
+RECURSIVE Merges(_, _)
+Merges(s, seqs) ==
   LET heads == {x \in DOMAIN seqs : seqs[x] # <<>>} IN
   IF heads = {} THEN {<<>>}
   ELSE LET minr == CHOOSE r \in {RankKey(Head(seqs[x])[2]) : x \in heads} :
                      \A y \in heads : r <= RankKey(Head(seqs[y])[2])
-           cands == {x \in heads : RankKey(Head(seqs[x])[2]) = minr}
-       IN UNION {{<<Head(seqs[x])>> \o m : m \in Merges([seqs EXCEPT ![x] = Tail(@)])}
+           cands0 == {x \in heads : RankKey(Head(seqs[x])[2]) = minr}
+           nonzero == {x \in cands0 : s.apps[Head(seqs[x])[1]].prio > 0}
+           cands == IF nonzero # {} THEN nonzero ELSE cands0
+       IN UNION {{<<Head(seqs[x])>> \o m : m \in Merges(s, [seqs EXCEPT ![x] = Tail(@)])}
                  : x \in cands}
 
 Labels == {Allocs[x].label : x \in DOMAIN Allocs}
 
 PartQueues(s, label) ==
-  Merges([x \in {y \in DOMAIN Allocs : Allocs[y].label = label} |-> PrivQueue(s, x)])
+  Merges(s, [x \in {y \in DOMAIN Allocs : Allocs[y].label = label} |-> PrivQueue(s, x)])
 
 -----------------------------------------------------------------------------
 (* environment events                                                       *)
@@ -103,7 +112,17 @@ Env(ev, args) ==
 
 FirstFree == LET free == {j \in DOMAIN AppSeq : AppSeq[j] \notin AppNames(st)} IN
              IF free = {} THEN "" ELSE AppSeq[CHOOSE j \in free : \A k \in free : j <= k]
-Submit(a, p) == a = FirstFree /\ Env("Submit", <<a, p>>)
+(* the last completed cycle changed nothing *)
+QuietNow == /\ cy.phase = "idle" /\ cy.fresh
+            /\ \A a \in AppNames(st) : a \in AppNames(cy.pre)
+                  /\ cy.pre.apps[a].server = st.apps[a].server
+                  /\ cy.pre.apps[a].expiry = st.apps[a].expiry
+Submit(a, p) ==
+  /\ a = FirstFree
+  /\ cy.phase = "idle" /\ ~cy.hold /\ "Submit" \in Events /\ n.ev < MaxEvents
+  /\ st' = EnvDo(st, "Submit", <<a, p>>, Scn)
+  /\ cy' = IF QuietNow THEN [Idle0 EXCEPT !.probe = a] ELSE Idle0
+  /\ n' = [n EXCEPT !.ev = @ + 1]
 RemoveApp(a) == Env("RemoveApp", <<a>>)
 SetPrio(a, p) == st.apps[a].prio # p /\ Env("SetPrio", <<a, p>>)
 Move(a, x) == st.apps[a].alloc # x /\ Env("Move", <<a, x>>)
@@ -149,9 +168,10 @@ CycleQ(qs) ==
   /\ LET s1 == PrePasses(st) IN
      /\ st' = s1
      /\ cy' = IF qs = <<>>
-              THEN [phase |-> "idle", fresh |-> TRUE, hold |-> FALSE, pre |-> st, qs |-> qs]
+              THEN [phase |-> "idle", fresh |-> TRUE, hold |-> FALSE, pre |-> st, qs |-> qs,
+                    probe |-> cy.probe]
               ELSE [phase |-> "run", fresh |-> FALSE, hold |-> FALSE, pre |-> st, qs |-> qs,
-                    p |-> 1, k |-> 1, ev |-> EmptyFn, tr |-> EmptyFn]
+                    p |-> 1, k |-> 1, ev |-> EmptyFn, tr |-> EmptyFn, probe |-> cy.probe]
   /\ n' = [n EXCEPT !.cyc = @ + 1]
 
 Cycle == \E qs \in QueueChoices(PrePasses(st), LabelSeq) : CycleQ(qs)
@@ -171,7 +191,7 @@ Step(s, id) ==
         /\ st' = x1.st
         /\ cy' = IF lastOfQ /\ lastQ
                  THEN [phase |-> "idle", fresh |-> TRUE, hold |-> FALSE,
-                       pre |-> cy.pre, qs |-> cy.qs]
+                       pre |-> cy.pre, qs |-> cy.qs, probe |-> cy.probe]
                  ELSE IF lastOfQ
                  THEN [cy EXCEPT !.p = @ + 1, !.k = 1, !.ev = EmptyFn, !.tr = EmptyFn]
                  ELSE [cy EXCEPT !.k = @ + 1, !.ev = x1.ev, !.tr = x1.tr]
@@ -217,6 +237,12 @@ InvC03 == Fresh => C03post(st) /\ C03assign(st, PlacementTuples) /\ C03renew(st,
 InvC04 == Fresh => C04limit(st) /\ C04counters(st)
 InvC05 == Fresh => C05unique(st) /\ C05range(st) /\ C05placedHas(st) /\ C05pendingNone(st)
                    /\ C05avail(st)
+InvC02 == (Fresh /\ cy.probe # "") => C02probe(cy.pre, st, FlatQ, cy.probe)
+InvC06 == Fresh => /\ C06perm(cy.pre, cy.qs)
+                   /\ \A k \in DOMAIN cy.qs :
+                        /\ C06rank(cy.qs[k]) /\ C06prio(cy.pre, cy.qs[k])
+                        /\ C06zeroLast(cy.pre, cy.qs[k]) /\ C06boost(cy.pre, cy.qs[k])
+                        /\ C06cap(cy.pre, cy.qs[k], st)
 InvC07 == Fresh => C07justified(cy.pre, st, FlatQ)
 InvC08 == Fresh => /\ C08keep(cy.pre, st, FlatQ) /\ C08expire(cy.pre, st)
                    /\ C08frozenKeep(cy.pre, st, FlatQ) /\ C08frozenNoNew(cy.pre, st)
